@@ -66,6 +66,8 @@ pub enum FlexApi {
     Std(MockApi),
     Bech32(cw_multi_test::MockApiBech32),
     Bech32m(cw_multi_test::MockApiBech32m),
+    /// plain case-sensitive strings (see ApiKind::Plain); the MockApi inside only serves the signature functions
+    Plain(MockApi),
 }
 
 impl FlexApi {
@@ -74,6 +76,7 @@ impl FlexApi {
             ApiKind::Std => FlexApi::Std(MockApi::default()),
             ApiKind::Bech32 => FlexApi::Bech32(cw_multi_test::MockApiBech32::new(crate::model::chain::PREFIX)),
             ApiKind::Bech32m => FlexApi::Bech32m(cw_multi_test::MockApiBech32m::new(crate::model::chain::PREFIX)),
+            ApiKind::Plain => FlexApi::Plain(MockApi::default()),
         }
     }
     pub fn addr_make(&self, name: &str) -> Addr {
@@ -81,6 +84,7 @@ impl FlexApi {
             FlexApi::Std(a) => a.addr_make(name),
             FlexApi::Bech32(a) => a.addr_make(name),
             FlexApi::Bech32m(a) => a.addr_make(name),
+            FlexApi::Plain(_) => Addr::unchecked(ApiKind::Plain.addr_make(name)),
         }
     }
     fn inner(&self) -> &dyn cosmwasm_std::Api {
@@ -88,18 +92,31 @@ impl FlexApi {
             FlexApi::Std(a) => a,
             FlexApi::Bech32(a) => a,
             FlexApi::Bech32m(a) => a,
+            FlexApi::Plain(a) => a,
         }
     }
 }
 
 impl cosmwasm_std::Api for FlexApi {
     fn addr_validate(&self, human: &str) -> cosmwasm_std::StdResult<Addr> {
+        if let FlexApi::Plain(_) = self {
+            return if human.is_empty() { Err(cosmwasm_std::StdError::generic_err("empty address")) } else { Ok(Addr::unchecked(human)) };
+        }
         self.inner().addr_validate(human)
     }
     fn addr_canonicalize(&self, human: &str) -> cosmwasm_std::StdResult<cosmwasm_std::CanonicalAddr> {
+        if let FlexApi::Plain(_) = self {
+            return if human.is_empty() { Err(cosmwasm_std::StdError::generic_err("empty address")) } else { Ok(human.as_bytes().to_vec().into()) };
+        }
         self.inner().addr_canonicalize(human)
     }
     fn addr_humanize(&self, canonical: &cosmwasm_std::CanonicalAddr) -> cosmwasm_std::StdResult<Addr> {
+        if let FlexApi::Plain(_) = self {
+            return match String::from_utf8(canonical.as_slice().to_vec()) {
+                Ok(s) if !s.is_empty() => Ok(Addr::unchecked(s)),
+                _ => Err(cosmwasm_std::StdError::generic_err("not a plain address")),
+            };
+        }
         self.inner().addr_humanize(canonical)
     }
     fn secp256k1_verify(&self, h: &[u8], s: &[u8], k: &[u8]) -> Result<bool, cosmwasm_std::VerificationError> {
@@ -140,6 +157,15 @@ impl cw_multi_test::AddressGenerator for OneAddressPerCode {
     }
 }
 
+/// The address generator of chains with plain string addresses: names that differ in letter case only, are prefixes
+/// of one another or contain the separators the storage layout uses. Every one of them is a contract of its own.
+pub struct PlainNames;
+impl cw_multi_test::AddressGenerator for PlainNames {
+    fn contract_address(&self, _api: &dyn cosmwasm_std::Api, _storage: &mut dyn cosmwasm_std::Storage, _code_id: u64, instance_id: u64) -> AnyResult<Addr> {
+        Ok(Addr::unchecked(crate::model::chain::plain_contract_name(instance_id)))
+    }
+}
+
 /// A checksum generator that computes what the default one computes (it is not exported).
 pub struct SameAsDefaultChecksums;
 impl cw_multi_test::ChecksumGenerator for SameAsDefaultChecksums {
@@ -156,6 +182,10 @@ pub fn new_app_setup(kind: ApiKind, prestored: bool) -> PApp {
 
 pub fn new_app_setup2(kind: ApiKind, prestored: bool, one_address_per_code: bool) -> PApp {
     let b: cw_multi_test::BasicAppBuilder<PMsg, PQuery> = AppBuilder::new_custom();
+    if kind == ApiKind::Plain {
+        let keeper: WasmKeeper<PMsg, PQuery> = WasmKeeper::new().with_address_generator(PlainNames);
+        return b.with_custom(CustomMod).with_api(FlexApi::of(kind)).with_wasm(keeper).build(|_, _, _| {});
+    }
     if one_address_per_code {
         let keeper: WasmKeeper<PMsg, PQuery> = WasmKeeper::new().with_address_generator(OneAddressPerCode);
         return b.with_custom(CustomMod).with_api(FlexApi::of(kind)).with_wasm(keeper).build(|_, _, _| {});
@@ -277,7 +307,8 @@ impl World {
     }
 
     pub fn with_setup2(kind: ApiKind, prestored: bool, one_address_per_code: bool) -> World {
-        let prestored = prestored && !one_address_per_code;
+        let one_address_per_code = one_address_per_code && kind != ApiKind::Plain;
+        let prestored = prestored && !one_address_per_code && kind != ApiKind::Plain;
         let app = new_app_setup2(kind, prestored, one_address_per_code);
         let mut model = ChainM::new(block_tuple(&app.block_info()));
         model.api = kind;
